@@ -1,6 +1,6 @@
 (* C05 -- Protobuf encode/decode round trip and encoded_len agreement.
    Only statements, each closed by [exact] of a lemma proved in Proofs/, with Print Assumptions beneath. *)
-From PVPb Require Import Wire Codec Msg Proofs.VarintP Proofs.WireP.
+From PVPb Require Import Wire Codec Msg Proofs.VarintP Proofs.WireP Proofs.CastP Proofs.CodecP.
 Open Scope Z_scope.
 
 (* every u64, every decode path (fast path / unrolled slice path / byte-at-a-time slow path; which one
@@ -40,3 +40,57 @@ Print Assumptions C05_key_rt.
 Theorem C05_key_len : forall tag wt, tag_ok tag -> key_len tag = Z.of_nat (length (encode_key tag wt)).
 Proof. exact key_len_correct. Qed.
 Print Assumptions C05_key_len.
+
+(* ---- per codec module.  [scalar_mod m]: the 7 varint-family modules (bool int32 int64 uint32 uint64
+   sint32 sint64), the 6 fixed-width ones (float double fixed32 fixed64 sfixed32 sfixed64), string,
+   faststr, bytes.  Every tag of 1..2^29-1, every value of the Rust type, arbitrary trailing bytes:
+   <module>::encode then decode_key + <module>::merge yields the value, leaves exactly the trailing
+   bytes, and charges the allocator with exactly the payload length of byte strings. *)
+Theorem C05_scalar_rt : forall m tag v r a, scalar_mod m = true -> tag_ok tag -> mod_value_okb m v = true ->
+  bind decode_key (fun k => merge_scalar m (snd k)) (mkR (encode_scalar m tag v ++ r) a)
+  = OOk v (mkR r (a + payload_cost m v)).
+Proof. exact scalar_rt. Qed.
+Print Assumptions C05_scalar_rt.
+
+Theorem C05_scalar_len : forall m tag v, scalar_mod m = true -> tag_ok tag -> mod_value_okb m v = true ->
+  encoded_len_scalar m tag v = zlen (encode_scalar m tag v).
+Proof. exact encoded_len_scalar_correct. Qed.
+Print Assumptions C05_scalar_len.
+
+(* the wrapping casts: the u64 put on the wire is in range and converts back (sint: zigzag; int32: sign
+   extension, so negative values take ten bytes) *)
+Theorem C05_varint_casts : forall m z, is_varint_mod m = true -> mod_value_okb m (VI z) = true ->
+  0 <= to_uint64 m z < two64 /\ from_uint64 m (to_uint64 m z) = z.
+Proof. exact varint_cast_rt. Qed.
+Print Assumptions C05_varint_casts.
+
+Theorem C05_int32_negative_ten_bytes : forall z, -2147483648 <= z < 0 -> 2 ^ 63 <= to_uint64 MInt32 z < two64.
+Proof. exact int32_negative_ten_bytes. Qed.
+Print Assumptions C05_int32_negative_ten_bytes.
+
+(* repeated (one record per element) and packed forms; elements are appended to what was there *)
+Theorem C05_repeated_rt : forall m tag, scalar_mod m = true -> tag_ok tag ->
+  forall vs acc r a, Forall (fun v => mod_value_okb m v = true) vs ->
+  merge_records m (length vs) acc (mkR (encode_repeated m tag vs ++ r) a)
+  = OOk (acc ++ vs) (mkR r (a + sumZ (map (fun v => payload_cost m v + 1) vs))).
+Proof. exact repeated_rt. Qed.
+Print Assumptions C05_repeated_rt.
+
+Theorem C05_packed_rt : forall m tag vs acc r a, numeric_mod m = true -> tag_ok tag -> vs <> [] ->
+  Forall (fun v => mod_value_okb m v = true) vs -> zlen (flat_map (payload m) vs) < two64 ->
+  bind decode_key (fun k => merge_repeated m (snd k) acc) (mkR (encode_packed m tag vs ++ r) a)
+  = OOk (acc ++ vs) (mkR r (a + Z.of_nat (length vs))).
+Proof. exact packed_rt. Qed.
+Print Assumptions C05_packed_rt.
+
+Theorem C05_repeated_len : forall m tag vs, scalar_mod m = true -> tag_ok tag ->
+  Forall (fun v => mod_value_okb m v = true) vs ->
+  encoded_len_repeated m tag vs = zlen (encode_repeated m tag vs).
+Proof. exact encoded_len_repeated_correct. Qed.
+Print Assumptions C05_repeated_len.
+
+Theorem C05_packed_len : forall m tag vs, numeric_mod m = true -> tag_ok tag ->
+  Forall (fun v => mod_value_okb m v = true) vs -> zlen (flat_map (payload m) vs) < two64 ->
+  encoded_len_packed m tag vs = zlen (encode_packed m tag vs).
+Proof. exact encoded_len_packed_correct. Qed.
+Print Assumptions C05_packed_len.
